@@ -210,10 +210,12 @@ func (m *StoreMon) OnEvent(c *eng.Ctx, ms eng.MState, ev *eng.Event) eng.MState 
 					case "call:maps.Clone", "call:maps.Keys", "call:maps.Values", "call:maps.All":
 						okCall = true
 					case "call:maps.Copy":
-						okCall = i == 1 // as source only
+						okCall = true // as source: a read; as destination: a write (checked below)
 					}
 					if okCall {
-						needRead("copying the map")
+						if !(ev.Class == "call:maps.Copy" && i == 0) {
+							needRead("copying the map")
+						}
 					} else {
 						chk("C13.R5,C14.R4", "escape", false, "the store's internal map is passed to "+ev.Class+": it escapes the critical section")
 					}
